@@ -126,6 +126,18 @@ fn run_dealer(cx: &mut CaseCx, case: &Value) {
       return;
     }
   };
+  // a second dealer on the same stream, used through nth(0) first (must be the first point, not x = 0)
+  {
+    let mut rng_b = ScriptRng::new(&prefix, cx.seed ^ fnv_str(&case.to_string()));
+    if let Ok(Ok(mut evb)) = guard(|| Sharks(t).dealer_rng(&secret, &mut rng_b).map_err(|e| e.to_string())) {
+      if let Ok(Some(s0)) = guard(|| evb.nth(0)) {
+        cx.eval();
+        if fp_to_big(&s0.x).is_zero() {
+          cx.viol("C06/x-zero/iterator", "nth(0) on a fresh dealer dealt the share at x = 0 (the secret itself)", json!({"t": t, "k": k}));
+        }
+      }
+    }
+  }
   let n_iter = t as usize + 3;
   let it: Vec<Share> = (0..n_iter).filter_map(|_| ev.next()).collect();
   if it.len() != n_iter {
